@@ -56,21 +56,21 @@ CLAIMED = {
          'Exploration by generated search: exact output equality (include renders in place, exec emits nothing and yields the last returned value, includeIfExists existing/missing/unparsable), no leak of callee declarations or context, relative names resolved against the including file (include) or the root (exec, includeIfExists).',
          "Trusts the reference interpreter. Not generated: 'return' inside a block body (whether it counts is unspecified), 'return nil' after another return or inside a range.",
          'DESIGN.md section 5/C09'),
- 'C13': ('property-based testing (rapid), model-based: generated try statements whose bodies nest range/if-let/block/yield-content/include/inner-try around one of 24 failing actions (or none), with every catch form, placed at top level / in a block with content / in a range / in an include; oracle = MiniJet reference interpreter with transactional try, probes after the statement',
+ 'C13': ('property-based testing (rapid), model-based: generated try statements whose bodies nest range/if-let/block/yield-content/include/inner-try around one of ~30 failing actions (or none), with every catch form, placed at top level / in a block with content / in a range / in an include; oracle = MiniJet reference interpreter with transactional try, probes after the statement',
          "Exploration by generated search over failure class x nesting path x catch form x placement; exact output equality (none of a failed body's bytes, catch exactly once, identical rendering on success) and probes of '.', variables, isset of every name declared inside, yield content and following text.",
          "Trusts the reference interpreter. Assignments from inside a try body to variables declared outside are not generated (whether a failed body's assignments are rolled back is not specified).",
          'DESIGN.md section 5/C13'),
- 'C12': ('property-based testing (rapid): generated template sets with exactly one failing action (72 kinds over every class the statement lists) at a generated file / line / nesting position; oracle = no panic + non-nil error + ("file":line) equal to the printer\'s ground truth for self-detected failures + writer content equal to the MiniJet reference interpreter\'s output up to the failing action',
+ 'C12': ('property-based testing (rapid): generated template sets with exactly one failing action (about 120 kinds over every class the statement lists, single- and multi-line) at a generated file / line / nesting position; oracle = no panic + non-nil error + ("file":line) equal to the printer\'s ground truth for self-detected failures + writer content equal to the MiniJet reference interpreter\'s output up to the failing action',
          'Exploration by generated search over failure class x file role (executed, included, imported block, extended layout, overriding block) x preceding content (multi-line text and comments, trim markers, same-line actions) x nesting depth; a replay tier holds one regression case per fixed defect.',
          'Trusts the reference interpreter for the output prefix and the printer for line ground truth. Positions of errors raised inside called functions (exec of a missing template, len(1), ints(1), isset(), Panicf) are not checked; failing actions occupy a single line except the multi-line yield-with-content variant.',
          'DESIGN.md section 5/C12'),
- 'C10': ('property-based testing (rapid), history-based differential: generated sequences of Execute calls over a pool of ordinary / failing / probing templates on one goroutine; oracle = the same call on freshly emptied object pools (two forced GCs) versus inside the history with GOMAXPROCS(1) and GC off (pooled Runtime reuse observed by pointer), structural hash of every parsed Template before/after, MiniJet reference interpreter as second opinion',
+ 'C10': ('property-based testing (rapid), history-based differential: generated sequences of Execute calls (on either of two Sets over the same sources: default escaper / escaper off; working or failing destination) over a pool of ordinary / failing / probing / returning / publishing / map-building / relative-including templates on one goroutine; oracle = the same call on freshly emptied object pools (two forced GCs) versus inside the history with GOMAXPROCS(1) and GC off (pooled Runtime reuse observed by pointer), structural hash of every parsed Template before/after, MiniJet reference interpreter as second opinion',
          'Exploration by generated histories (2-15 calls, 3-8 templates): output byte equality and error nil-ness/position equality between fresh state and history position; evidence reports how many histories observed Runtime reuse and a failing execution followed by a probing one on the same Runtime.',
          'sync.Pool reuse is made deterministic with one P and the GC disabled for the duration of a history; not run under -race (race mode drops pooled items at random). Error texts are not compared (they may print addresses).',
          'DESIGN.md section 5/C10'),
  'C06': ('property-based testing (rapid): access paths generated against the shape of zoo values (structs with exported/unexported/promoted/shadowed fields, value and pointer methods, maps with string/int/named keys, slices, arrays, strings, multi-level pointers, interfaces, nils); oracle = independent direct reflect resolver (value identity by pointer / DeepEqual inside the template through a checking function), metamorphic .name vs ["name"] twin, scalar rendering, invalid step => error (no panic), absent key => nil',
          "Exploration by generated search over step kinds x spellings x bases (variable, '.', call result) x 6 zoo variants, with an optional invalid step at any depth; label histogram of step kinds and failure classes in the evidence.",
-         'The zoo is a fixed family of hand-written Go types (types with methods cannot be created at run time). Not generated: pointer-receiver methods on unaddressable values, methods on nil pointers, selectors ambiguous in Go, absent map keys through .name syntax, anything after a slice expression (grammar).',
+         'The zoo is a fixed family of hand-written Go types (types with methods cannot be created at run time). Not generated: pointer-receiver methods on unaddressable values, methods on nil pointers (C14 has one that tolerates nil), selectors ambiguous in Go, an absent map key as the LAST step in .name syntax (a further step after it is generated and must fail), anything after a slice expression (grammar).',
          'DESIGN.md section 5/C06'),
  'C17': ('property-based testing (rapid): isset over generated argument lists of access paths into zoo values (valid/invalid at any depth, nils of every kind, absent keys, zero values, variable and undefined indexes) in direct / prefix / piped form, and two-value map look-ups; oracle = independent existence evaluator (every step resolves and is non-nil) / key presence',
          "Exploration by generated search; Execute must return nil and render exactly the evaluator's true/false.",
@@ -85,7 +85,7 @@ CLAIMED = {
          'Every body opens its scope with a template-level := before an API call is made (Let from a body without an open scope is excluded); YieldBlock is used with parameterless blocks; VarMap is non-nil.',
          'DESIGN.md section 5/C18'),
  'C11': ('property-based testing (rapid) of generated concurrent operation mixes under the Go race detector (-race, halt_on_error) plus a serial-equivalence oracle: every concurrent Execute must return exactly what the same call returned alone on a private identically built Set',
-         'Exploration by generated schedules-by-proxy: 4-12 goroutines with barrier start issuing GetTemplate/Parse/Execute/AddGlobal/LookupGlobal and in-memory loader edits over shared templates (first loads of the same name, struct-field cache population for a type created per case, pooled rangers, failing executions), each mix repeated 1-3 times; any race report kills the process with exit code 66 and is reported with the operation mix as replay.',
+         'Exploration by generated schedules-by-proxy: 4-32 goroutines (on all, 2 or 4 Ps) with barrier start issuing GetTemplate/Parse/Execute/AddGlobal/LookupGlobal and in-memory loader edits over shared templates (first loads of the same name, struct-field cache population for a type created per case, pooled rangers, failing executions), each mix repeated 1-3 times; any race report kills the process with exit code 66 and is reported with the operation mix as replay.',
          'The race detector judges only the interleavings that actually happened; PBT supplies many operation mixes but does not own the Go scheduler, so a race that needs a specific preemption inside a narrow window may survive (stated limit). Globals and loader edits touch only keys/files the compared templates do not depend on, or rewrite identical values.',
          'DESIGN.md section 5/C11'),
 }
